@@ -1038,3 +1038,29 @@ def resolved_defaults_are_used(qualname):
                        ("`%s` is resolved at line %d and only the resolved value is read afterwards" % (name, st.lineno)) if ok else
                        ("`%s` is resolved at line %d (falling back when self.%s is None) but `self.%s` is read again at line(s) %s: with the setting left at None the fallback is ignored there" % (name, st.lineno, name, name, sorted({u.lineno for u in uses})))))
     return out
+
+
+def none_guard_matches_use(qualname):
+    """`if obj.a is not None: ... obj.b.method() ...` -- the body never reads the attribute the guard tested but dereferences ANOTHER
+    attribute of the same object: the guard was meant for the attribute that is used (copy-paste of a neighbouring block)"""
+    fi = source.lookup(qualname)
+    out = []
+    n = 0
+    for node in ast.walk(fi.node):
+        if not isinstance(node, ast.If):
+            continue
+        tests = node.test.values if isinstance(node.test, ast.BoolOp) and isinstance(node.test.op, ast.And) else [node.test]
+        for t in tests:
+            if isinstance(t, ast.Compare) and len(t.ops) == 1 and isinstance(t.ops[0], ast.IsNot) and isinstance(t.comparators[0], ast.Constant) and t.comparators[0].value is None \
+                    and isinstance(t.left, ast.Attribute) and isinstance(t.left.value, ast.Name) and t.left.value.id != "self":
+                base, guarded = t.left.value.id, t.left.attr
+                n += 1
+                body_nodes = [x for b in node.body for x in ast.walk(b)]
+                uses_guarded = any(isinstance(x, ast.Attribute) and x.attr == guarded and isinstance(x.value, ast.Name) and x.value.id == base for x in body_nodes)
+                deref_other = sorted({x.value.attr for x in body_nodes if isinstance(x, (ast.Attribute, ast.Subscript)) and isinstance(x.value, ast.Attribute) and isinstance(x.value.value, ast.Name)
+                                      and x.value.value.id == base and x.value.attr != guarded})
+                ok = uses_guarded or not deref_other
+                out.append(_ob(qualname, "none-guard-matches-use:%s.%s@L%d" % (base, guarded, node.lineno), ok, node.lineno,
+                               ("the guarded attribute `%s.%s` is the one the body uses" % (base, guarded)) if ok else
+                               ("the guard tests `%s.%s is not None` but the body never reads it and dereferences `%s.%s` instead" % (base, guarded, base, deref_other[0]))))
+    return out
